@@ -124,6 +124,16 @@ def run_task(spec, shard, opts):
     return out
 
 
+def run_selftest(scale):
+    t0 = time.time()
+    try:
+        from . import selftest
+        n = selftest.run(scale)
+        return dict(selftest=True, ok=True, comparisons=n, wall_s=round(time.time() - t0, 2))
+    except BaseException as e:      # noqa
+        return dict(selftest=True, ok=False, error="%s: %s" % (type(e).__name__, e), wall_s=round(time.time() - t0, 2))
+
+
 def _run_task(spec, shard, opts):
     import z3
     from . import load, codec
@@ -269,9 +279,12 @@ def run_property(prop, harnesses, tier, seed, jobs=16, level="model_checking", e
     results = []
     ctxm = mp.get_context("fork")
     with cf.ProcessPoolExecutor(max_workers=jobs, mp_context=ctxm) as pool:
-        futs = [pool.submit(run_task, spec, shard, opts) for spec, shard in tasks]
+        futs = [pool.submit(run_selftest, 0.4 if tier == "quick" else 1.0)]
+        futs += [pool.submit(run_task, spec, shard, opts) for spec, shard in tasks]
         for f in cf.as_completed(futs):
             results.append(f.result())
+    selftest = [r for r in results if r.get("selftest")][0]
+    results = [r for r in results if not r.get("selftest")]
     byname = {H.name: H for H in harnesses}
     agg = {}
     harness_errors = []
@@ -306,6 +319,8 @@ def run_property(prop, harnesses, tier, seed, jobs=16, level="model_checking", e
     status = EXIT_OK
     lines = []
     confirmed = []
+    if not selftest["ok"]:
+        harness_errors.append(("selftest", "a model of a C-level function disagrees with CPython: " + selftest["error"]))
     # known findings: replay each witness
     kf_replayed = []
     for fid, e in sorted(active_findings(prop).items()):
@@ -383,6 +398,8 @@ def run_property(prop, harnesses, tier, seed, jobs=16, level="model_checking", e
             stubs=sorted(set(s for h in harnesses for s in h.stubs)),
             known_findings_replayed=kf_replayed,
             solver="z3 " + _z3_version(),
+            model_selftest=dict(comparisons_against_cpython=selftest.get("comparisons", 0), ok=selftest["ok"],
+                                wall_s=selftest["wall_s"]),
             engine="symx (symbolic execution of /repo/pvl through an AST instrumenter; z3 decides every branch)",
         ),
         assumptions=sorted(set(s for h in harnesses for s in h.assumptions)),
